@@ -995,7 +995,16 @@ impl World for FeesWorld {
                 self.pre_executed = Some((text.clone(), ok));
                 ('O', text)
             }
-            4 => ('O', format!("updateEnergy u{}", rng.range(1, nu))),
+            4 => {
+                // anybody may call updateEnergyForUser for anybody: aim it, half of the time, at a user whose claim progress is
+                // BEHIND the current week (the guarded case — it must be refused while the user is still owed a share)
+                let behind: Vec<usize> = (0..self.nusers).filter(|i| matches!(&s.progress[*i], Some((w, _)) if *w < s.week)).collect();
+                if !behind.is_empty() && rng.chance(1, 2) {
+                    ('O', format!("updateEnergy u{}", rng.pick(&behind) + 1))
+                } else {
+                    ('O', format!("updateEnergy u{}", rng.range(1, nu)))
+                }
+            }
             5 => match rng.below(10) {
                 0..=2 => {
                     let v = match rng.below(4) {
